@@ -66,7 +66,13 @@ class Template:
         with open(os.path.join(out, "file.txt"), "w") as f:
             f.write("outside file\n")
         with open(os.path.join(self.tmpl, "sibling.txt"), "w") as f:
-            f.write("sibling\n")
+            f.write("sibling: SECRET outside the root\n")
+        # the directory the data root lies in is itself a git working tree (a home directory or
+        # /etc under version control) with that file committed
+        from .world import git
+        git(self.tmpl, "init", "-q", "-b", "main")
+        git(self.tmpl, "-c", "user.name=o", "-c", "user.email=o@example.com", "add", "sibling.txt")
+        git(self.tmpl, "-c", "user.name=o", "-c", "user.email=o@example.com", "commit", "-q", "-m", "outer")
         self.n = 0
 
     def fresh(self):
@@ -93,6 +99,10 @@ def render(case, abs_path):
             segs.extend([x for x in abs_path.split("/") if x])
         elif s == "OUT":
             segs.extend(["outside", "cal", "a.ics"])
+        elif s == "DIR":
+            segs.append("user")
+        elif s == "SIB":
+            segs.append("sibling.txt")
         else:
             segs.append(s)
     enc = case["enc"]
@@ -128,7 +138,8 @@ def render(case, abs_path):
 
 
 def render_norm(case):
-    segs = [{"N1": "cal", "N2": "a.ics", "F": "new", "ABS": "ABS-outside", "OUT": "outside/cal/a.ics"}.get(s, s)
+    segs = [{"N1": "cal", "N2": "a.ics", "F": "new", "ABS": "ABS-outside", "OUT": "outside/cal/a.ics", "DIR": "user",
+             "SIB": "sibling.txt"}.get(s, s)
             for s in case["norm"]]
     return "/" + "/".join(urllib.parse.quote(s) for s in segs)
 
